@@ -226,6 +226,11 @@ type mapping struct{ base, n uintptr }
 
 var maps []mapping
 
+var nHangs int
+
+// widely hanging code: stop generating cases so that the run stays bounded
+func tooManyHangs() bool { return nHangs >= 8 }
+
 func runManaged(budget int, fn func()) (status string, steps int) {
 	s := vsched.New(false)
 	defer vsched.Stop()
@@ -233,6 +238,7 @@ func runManaged(budget int, fn func()) (status string, steps int) {
 	for !s.Done(tid) {
 		if steps >= budget {
 			s.Kill(tid)
+			nHangs++
 			return "hang", steps
 		}
 		s.Step(tid)
@@ -267,6 +273,9 @@ func buildNames() {
 }
 
 func restCase() {
+	if tooManyHangs() {
+		return
+	}
 	dir, err := os.MkdirTemp(root, "r")
 	if err != nil {
 		panic(err)
@@ -528,6 +537,9 @@ var modeStates = []struct {
 func planCase(variant string, steps []planStep) { planCaseMode(variant, 0, steps) }
 
 func planCaseMode(variant string, modeIdx int, steps []planStep) {
+	if tooManyHangs() {
+		return
+	}
 	dir, err := os.MkdirTemp(root, "p")
 	if err != nil {
 		panic(err)
@@ -680,6 +692,9 @@ func planCaseMode(variant string, modeIdx int, steps []planStep) {
 var failKinds = []string{"mode-off", "weekends-read", "mkdir", "open", "mmap", "short-header"}
 
 func concFailCase(k int, fkind string, hasPtr bool) {
+	if tooManyHangs() {
+		return
+	}
 	dir, err := os.MkdirTemp(root, "f")
 	if err != nil {
 		panic(err)
